@@ -94,6 +94,20 @@ Definition c15_tmpl (l : c15_lang) (docstring : bool) (indent : nat) (docs : lis
   end.
 Definition c15_contained (l : c15_lang) (st : lstate) (t : mtext) : bool := contained_gen (c15_cfg l) st t.
 
+(* ---- whole files as code parts and comment fragments ---- *)
+(* A generated file seen as a sequence of parts: code the printer writes, and comment fragments
+   (write_comments of some doc list at some indentation; for Python in docstring or `#` form). *)
+Inductive c15_part := CPcode (s : str) | CPdoc (docstring : bool) (indent : nat) (docs : list str).
+Definition c15_part_pieces (l : c15_lang) (p : c15_part) : list piece :=
+  match p with CPcode s => [PLit s] | CPdoc b i ds => c15_tmpl l b i ds end.
+Definition c15_file_pieces (l : c15_lang) (ps : list c15_part) : list piece := flat_map (c15_part_pieces l) ps.
+Definition c15_part_safe (l : c15_lang) (p : c15_part) : bool :=
+  match p with CPcode _ => true | CPdoc b _ ds => forallb (c15_safe l b) ds end.
+(* what C10 (whole-file lexing) has to provide: every code part, read from code, ends in code *)
+Definition c15_code_neutral (l : c15_lang) (p : c15_part) : Prop :=
+  match p with CPcode s => lex_str_gen (c15_cfg l) LCode s = LCode | CPdoc _ _ _ => True end.
+
+
 (* ---- documentable positions, finding classes ---- *)
 (* the positions of the property's quantifier; an enum is either all-unit or data-carrying (algebraic) *)
 Inductive c15_pos := C15struct | C15field | C15unit_enum | C15alg_enum | C15variant | C15variant_field | C15alias.
